@@ -58,7 +58,7 @@ def continuation_templates(prefixes=(b'-', b'// '), wss=(b'', b'  ')):
             out.append(('cont spaces', (ws + b' ' * len(p) + b'k', ('sym', [107, 32, 9]))))
             out.append(('cont spaces-only', (ws + b' ' * len(p), ('sym', [107, 32, 9]))))
             out.append(('cont bare', (ws + p.rstrip(),)))
-            out.append(('cont looks-like-temp', (ws + p + b'TXTPP#temp a.tmp',)))
+            out.append(('cont looks-like-temp', (ws + p + b'TXTPP#temp t.tmp',)))
             out.append(('cont ws-mismatch', (ws + b' ' + p + b'k',)))
     return out
 
